@@ -25,5 +25,10 @@ def obligations(tier: str) -> list[Ob]:
             stubs=["parameter kinds, names, locations, response contents and malformed reference strings come from pools selected by symbolic indices"],
             bounds={"parameter": "4 locations x 5 kinds x 3 names x required", "response contents": 5, "malformed refs": 6, "schema kinds": "3 x 4 wrappers x required"},
         ),
+        harness_ob(
+            "dangling_ref_containment", "C08_state.py", tier, funcs=["only_the_failing_model_is_removed"], timeout=240 if q else 900, cpus=2,
+            encoded=["openapi_python_client.parser.properties:build_schemas", "openapi_python_client.parser.properties.schemas:Schemas.add_dependencies", "openapi_python_client.parser.properties:_process_model_errors"],
+            bounds={"components": "Shared / Early (failing: dangling ref, array without items or bad default, before or after its reference to Shared) / Late (healthy user of Shared), all 6 declaration orders"},
+        ),
         Ob("replay_ref_inline_twins", "vlib.replay_checks:ref_inline_twins", {}, timeout_s=600, engine="replay", cpus=1),
     ]
